@@ -46,13 +46,69 @@ def nats_lit(ps):
     return L.lst(L.nat(p) for p in ps)
 
 
+class Bad(object):
+    """a cell the dump could not read as a plain value (pyobs.val gives None for it, so the case is reported)"""
+
+    def __init__(self, what):
+        self.what = what
+
+    def __repr__(self):
+        return '<%s>' % self.what
+
+
+def is_series(col):
+    from datamatrix._datamatrix._seriescolumn import _SeriesColumn
+    return isinstance(col, _SeriesColumn)
+
+
+def col_entries(name, col):
+    """[(name, kind, column row ids, plain values)].  A plain column is one entry.  A SeriesColumn of depth d is read
+    as in Spec/SeriesEnc.v: d FloatColumn pseudo-columns name#0 .. name#(d-1) (sample j of every row), preceded by an
+    IntColumn pseudo-column name# that holds d in every row (so that 'is still a series of that depth' is part of
+    what is compared, also for depth 0).  `#` cannot occur in a column name.  A series column whose data is not a
+    float64 array of shape (rows, depth) is dumped as one Bad cell per row."""
+    if not is_series(col):
+        return [(name, kindof(col), [int(i) for i in col._rowid], [plain(v) for v in col])]
+    from datamatrix._datamatrix._seriescolumn import _SeriesColumn
+    rid = [int(i) for i in col._rowid]
+    try:
+        seq, d = col._seq, col._depth
+        shape = getattr(seq, 'shape', None)
+        ok = type(col) is _SeriesColumn and isinstance(seq, np.ndarray) and seq.dtype == np.float64 and \
+            type(d) is int and shape == (len(rid), d) and len(col) == len(rid) and col.depth == d
+    except Exception as e:                  # noqa: BLE001
+        ok, shape = False, repr(e)
+    if not ok:
+        return [(name + '#', 'KInt', rid, [Bad('series column %s of depth %r has data of shape %r' % (
+            name, getattr(col, '_depth', None), shape))] * max(1, len(rid)))]
+    out = [(name + '#', 'KInt', rid, [d] * len(rid))]
+    for j in range(d):
+        out.append(('%s#%d' % (name, j), 'KFloat', rid, [float(x) for x in seq[:, j]]))
+    return out
+
+
 def snap(dm):
     """(row ids, [(name, kind, column row ids, plain values)])"""
     ids = [int(i) for i in dm._rowid]
     cols = []
     for name, col in dm.columns:
-        cols.append((name, kindof(col), [int(i) for i in col._rowid], [plain(v) for v in col]))
+        cols.extend(col_entries(name, col))
     return ids, cols
+
+
+def parts_of(cols, name):
+    """the entries of column `name` in a dump (one for a plain column, 1 + depth for a series)"""
+    return [(n, k, r, v) for n, k, r, v in cols if n == name or n.startswith(name + '#')]
+
+
+def row_keys(parts):
+    """one comparable key per row over all entries of a column (bit-exact: Coq literals)"""
+    return [tuple(pyobs.val(x) for x in row) for row in zip(*[v for _, _, _, v in parts])]
+
+
+def bad_cells(v):
+    b = [x for x in v if isinstance(x, Bad)]
+    return (': %r' % b[0]) if b else ''
 
 
 def snap_key(s):
@@ -82,10 +138,11 @@ def doc_key(v):
     return (0, v)
 
 
-def find_witness(byvals, objvals, result):
-    """positions p with: by-values non-decreasing along p and [objvals[i] for i in p] == result; None if none"""
+def find_witness(byvals, objkeys, reskeys):
+    """positions p with: by-values non-decreasing along p and [objkeys[i] for i in p] == reskeys; None if none
+    (objkeys / reskeys: one comparable key per row, see row_keys)"""
     n = len(byvals)
-    if len(objvals) != n or len(result) != n:
+    if len(objkeys) != n or len(reskeys) != n:
         return None
     order = sorted(range(n), key=lambda i: doc_key(byvals[i]))
     p = []
@@ -96,10 +153,10 @@ def find_witness(byvals, objvals, result):
             j += 1
         pool = order[i:j]
         for out in range(i, j):
-            want = pyobs.val(result[out])
+            want = reskeys[out]
             hit = None
             for s in pool:
-                if pyobs.val(objvals[s]) == want:
+                if objkeys[s] == want:
                     hit = s
                     break
             if hit is None:
@@ -145,18 +202,29 @@ class C10:
             'ops.sort(dm, by), ops.sort(col), ops.sort(other, by=col) incl. assigning the result back, '
             'ops.bin_split(col, bins) for bins 1..len+1; every call is also checked not to modify its input; '
             '(c) bin_split on lengths 13..64 x all bins (pairs such as 15/11 where a float quotient could round); '
-            '(d) short histories on one table object: sort, overwrite cells of the by-column in place, sort again. '
+            '(d) short histories on one table object: sort, overwrite cells of the by-column in place, sort again; '
+            'sort / other operations on the same table (shuffles, samples, selections, other sorts) / sort; '
+            "(a') ~40 strings whose code point order differs from their order under normalisation / collation / UTF-16 "
+            '(combining sequences and their precomposed twins with text between them, compatibility characters, jamo vs '
+            'syllables, astral characters next to U+FFxx) against each other and against every other string; the same '
+            'strings occur in Mixed by-columns; '
+            '(e) tables DERIVED by sort / shuffle / comparison / in-place row deletion / index list, then shrunk and / or '
+            'grown IN PLACE (new rows default or written), then sorted / bin-split; '
+            '(f) tables carrying one or two SeriesColumns (depth 0..4, also re-depthed) read as pseudo-columns s# (depth) '
+            'and s#j (sample j): sort(dm, by), sort(series, by=col) also detached, bin_split, and sort / use / sort '
+            'histories -- every result row must hold the series cell of the same source row. '
             'A case is non-trivial when the result order differs from the input order, ties exist, or ValueError '
             'is raised; distinct by full input.')
     trusted_base = [
         'Coq 8.16.1 kernel (coqc; vm_compute for evaluating cases; no native_compute)',
         'translator /verif/translate (py2coq.py, pystmt.py, gen_sort.py): _sort.py comparison methods, '
         '_sortable_regular, bin_split guard/bound -> Gen/KSort.v; pinned skeletons of _sortedrowid, operations.sort, '
-        'bin_split loop; the claim int(a/b) = floor(a/b) for 0 <= a < 2^53, 0 < b (Z.quot)',
+        'bin_split loop, DataMatrix._selectrowid, Base/NumericColumn._getrowidkey; the claim int(a/b) = floor(a/b) for 0 <= a < 2^53, 0 < b (Z.quot)',
         'hand-written CPython models: `<` dispatch with reflected __gt__ (Model/Sort.v py_lt), exact int/float '
         'comparison (Base/PyVal.v num_cmp), str comparison = byte-wise UTF-8 order, sorted() is stable (Timsort); '
         'NumPy argsort = ascending with NaN last (order among ties unspecified)',
-        'harness/c10.py (runner, table dump, witness search for sort(col, by) -- witnesses are checked by Coq), '
+        'harness/c10.py (runner, table dump incl. the pseudo-column reading of SeriesColumns, witness search for '
+        'sort(col, by) -- witnesses are checked by Coq), '
         'harness/pyobs.py, harness/coqlit.py',
     ]
     assumptions = [
@@ -165,14 +233,26 @@ class C10:
         'bin_split: len(dm) * bins < 2^53 so that int(a/b) is the exact floor (translator assumption)',
         'the id-based _getrowidkey of numeric columns (argsort + searchsorted) is modelled as lookup by id',
         'bins <= 0 is outside the property (no chunk is produced) and is not generated',
+        'a SeriesColumn is never the by-column (the documented order is about scalar cells); as payload it is judged '
+        'as depth + 1 numeric pseudo-columns (shape / dtype / class of the result are checked on the Python side)',
     ]
 
     # ------------------------------------------------------------------ building tables
     def build(self, inp):
-        from datamatrix import DataMatrix, operations as ops
+        from datamatrix import DataMatrix, SeriesColumn, operations as ops
         n = len(inp['cols'][0]['values'])
         dm = DataMatrix(length=n)
         for c in inp['cols']:
+            if c['kind'] == 'KSeries':
+                # a series column: one row of `depth` numbers per cell; optionally its depth is changed afterwards
+                # (growing pads with the default, shrinking cuts)
+                dm[c['name']] = SeriesColumn(depth=c['depth'], defaultnan=c.get('defaultnan', True))
+                if c['depth']:
+                    for i, row in enumerate(c['values']):
+                        dm[c['name']][i] = [pyobs.dec(x) for x in row]
+                if 'redepth' in c:
+                    dm[c['name']].depth = c['redepth']
+                continue
             dm[c['name']] = coltype(c['kind'])
             if n:
                 dm[c['name']] = [pyobs.dec(v) for v in c['values']]
@@ -182,6 +262,18 @@ class C10:
                 dm = dm[list(o['idx'])]
             elif 'sort' in o:
                 dm = ops.sort(dm, by=dm[o['sort']])
+            elif 'shuffle' in o:
+                import random as _random
+                _random.seed(o['shuffle'])
+                dm = ops.shuffle(dm)
+            elif 'select' in o:
+                # the rows whose cell differs from a value: a selection by row id
+                dm = dm[o['select']['col']] != pyobs.dec(o['select']['ne'])
+            elif 'delrows' in o:
+                # rows deleted in place (the table object stays, its columns are replaced)
+                for i in sorted(set(o['delrows']), reverse=True):
+                    if 0 <= i < len(dm):
+                        del dm[i]
         return dm
 
     # ------------------------------------------------------------------ one step on the live table
@@ -191,8 +283,21 @@ class C10:
         out = {'oracle': 'true', 'model': 'true', 'pyfail': None, 'observed': None, 'nontrivial': False, 'tags': []}
         op = st['op']
         if op == 'write':
-            dm[st['col']][st['idx']] = pyobs.dec(st['value'])
+            idx = st['idx']
+            if st.get('wrap'):
+                # position counted modulo the current length (negative: from the end, i.e. into rows just added)
+                if not len(dm):
+                    out['observed'] = 'nothing to write'
+                    return out
+                idx = idx % len(dm)
+            dm[st['col']][idx] = pyobs.dec(st['value'])
             out['observed'] = 'written'
+            return out
+        if op == 'resize':
+            # the table is shrunk / grown IN PLACE (new rows hold the columns' default cells); the next sort is judged
+            # in full on whatever the table then holds
+            dm.length = max(0, len(dm) + st['delta'])
+            out['observed'] = 'length %d' % len(dm)
             return out
         if op == 'use':
             # other operations on the same table between two sorts; their results are discarded, the table must not
@@ -222,8 +327,19 @@ class C10:
             if r != ids:
                 fails.append('column %s is not aligned with its DataMatrix before the call' % n)
             if vals_lit(v) is None:
-                fails.append('column %s holds a non-plain value' % n)
+                fails.append('column %s holds a non-plain value%s' % (n, bad_cells(v)))
         if fails:
+            # what the call itself does on such a table (for the report only)
+            try:
+                if op == 'sort_dm':
+                    ops.sort(dm, by=dm[st['by']])
+                elif op == 'sort_col':
+                    ops.sort(dm[st['obj']], by=dm[st.get('by') or st['obj']])
+                else:
+                    list(ops.bin_split(dm[st['col']], st['bins']))
+                fails.append('(%s on this table returned)' % op)
+            except Exception as e:          # noqa: BLE001
+                fails.append('(%s on this table raised %r)' % (op, e))
             out['pyfail'] = '; '.join(fails)
             return out
         if op == 'sort_dm':
@@ -238,7 +354,7 @@ class C10:
                 if r != rids:
                     fails.append('result column %s has row ids %r, table has %r' % (n, r, rids))
                 if vals_lit(v) is None:
-                    fails.append('result column %s holds a non-plain value' % n)
+                    fails.append('result column %s holds a non-plain value%s' % (n, bad_cells(v)))
             if len(res) != len(rids):
                 fails.append('len(result) != number of row ids')
             if not fails:
@@ -249,7 +365,10 @@ class C10:
             out['observed'] = {'row_ids': rids, 'by': [pyobs.jsonable(x) for x in dict((n, v) for n, _, _, v in rcols).get(st['by'], [])]}
             out['nontrivial'] = rids != ids or len(set(map(doc_key_safe, byv))) < len(byv)
         elif op == 'sort_col':
-            objk, _, objv = colmap[st['obj']]
+            # obj may be a SeriesColumn (sort(series, by=col)): it is judged through its pseudo-columns, all of which
+            # must be rearranged along ONE witness permutation that sorts the by-cells
+            oparts = parts_of(cols, st['obj'])
+            objk = oparts[0][1]
             byname = st.get('by') or st['obj']
             byk, _, byv = colmap[byname]
             key = st.get('key')
@@ -262,7 +381,8 @@ class C10:
                     kp, pykey = list(key['idx']), list(key['idx'])
                 else:
                     kp, pykey = list(range(len(ids)))[key['slice'][0]:key['slice'][1]], slice(key['slice'][0], key['slice'][1])
-                objv, byv, ids = [objv[i] for i in kp], [byv[i] for i in kp], [ids[i] for i in kp]
+                oparts = [(n, k, [r[i] for i in kp], [v[i] for i in kp]) for n, k, r, v in oparts]
+                byv, ids = [byv[i] for i in kp], [ids[i] for i in kp]
                 if st.get('by'):
                     res = ops.sort(dm[st['obj']][pykey], by=dm[st['by']][pykey])
                 else:
@@ -273,35 +393,45 @@ class C10:
             else:
                 res = ops.sort(dm[st['obj']])
             post = snap(dm)
-            rvals = [plain(v) for v in res]
-            rrid = [int(i) for i in res._rowid]
-            if kindof(res) != objk:
-                fails.append('result column type %s, source %s' % (kindof(res), objk))
-            if vals_lit(rvals) is None:
-                fails.append('result holds a non-plain value')
-            if len(res) != len(rvals):
-                fails.append('len(result) != number of values')
+            rparts = col_entries(st['obj'], res)
+            rrid = rparts[0][2]
+            if [(n, k) for n, k, _, _ in rparts] != [(n, k) for n, k, _, _ in oparts]:
+                fails.append('result column type / depth %r, source %r' % ([(n, k) for n, k, _, _ in rparts],
+                                                                          [(n, k) for n, k, _, _ in oparts]))
+            for n, k, r, v in rparts:
+                if vals_lit(v) is None:
+                    fails.append('result holds a non-plain value' + bad_cells(v))
+                if len(res) != len(v):
+                    fails.append('len(result) != number of values')
             # position-aligned: can be assigned back to (a copy of) the DataMatrix
             try:
-                if not key:
+                if not key and not fails:
                     d2 = dm[:]
                     d2['zz_sorted'] = res
-                    back = [plain(v) for v in d2['zz_sorted']]
-                    if vals_lit(back) != vals_lit(rvals):
-                        fails.append('assigned-back column reads %r, sorted column %r' % (back, rvals))
+                    back = col_entries(st['obj'], d2['zz_sorted'])
+                    if [(n, k, vals_lit(v)) for n, k, _, v in back] != [(n, k, vals_lit(v)) for n, k, _, v in rparts]:
+                        fails.append('assigned-back column reads %r, sorted column %r' % (
+                            [v for _, _, _, v in back], [v for _, _, _, v in rparts]))
             except Exception as e:          # noqa: BLE001
                 fails.append('sorted column cannot be assigned back: %r' % (e,))
             if not fails:
-                p = find_witness(byv, objv, rvals)
+                p = find_witness(byv, row_keys(oparts), row_keys(rparts))
                 if p is None:
                     p = list(range(len(byv)))
                     out['tags'].append('no-witness')
-                out['oracle'] = '(o_sort_col %s %s %s %s %s %s)' % (
-                    vals_lit(byv), vals_lit(objv), nats_lit(p), vals_lit(rvals), ids_lit(ids), ids_lit(rrid))
-                out['model'] = '(m_sort_col %s %s %s %s)' % (
-                    mcol_lit(objk, ids, objv), mcol_lit(byk, ids, byv), nats_lit(p), mcol_lit(objk, rrid, rvals))
-            out['observed'] = {'values': [pyobs.jsonable(x) for x in rvals], 'row_ids': rrid}
-            out['nontrivial'] = vals_lit(rvals) != vals_lit(objv) or len(set(map(doc_key_safe, byv))) < len(byv)
+                out['oracle'] = '(' + ' && '.join('(o_sort_col %s %s %s %s %s %s)' % (
+                    vals_lit(byv), vals_lit(ov), nats_lit(p), vals_lit(rv), ids_lit(ids), ids_lit(rrid))
+                    for (_, _, _, ov), (_, _, _, rv) in zip(oparts, rparts)) + ')'
+                out['model'] = '(' + ' && '.join('(m_sort_col %s %s %s %s)' % (
+                    mcol_lit(ok_, ids, ov), mcol_lit(byk, ids, byv), nats_lit(p), mcol_lit(ok_, rrid, rv))
+                    for (_, ok_, _, ov), (_, _, _, rv) in zip(oparts, rparts)) + ')'
+            if len(rparts) == 1:
+                out['observed'] = {'values': [pyobs.jsonable(x) for x in rparts[0][3]], 'row_ids': rrid}
+            else:
+                out['observed'] = {'series': [[repr(x) for x in v] for _, _, _, v in rparts], 'row_ids': rrid}
+            out['nontrivial'] = row_keys(rparts) != row_keys(oparts) or len(set(map(doc_key_safe, byv))) < len(byv)
+            if len(oparts) > 1:
+                out['tags'].append('series-obj')
         elif op == 'bin_split':
             byk, _, byv = colmap[st['col']]
             bins = st['bins']
@@ -349,11 +479,19 @@ class C10:
             warnings.simplefilter('ignore')
             if 'lt' in inp:
                 return self.rerun_lt(inp)
-            dm = self.build(inp)
             os_, ms, pf, obs = [], [], [], []
             nontriv = False
             tags = list(inp.get('tags', []))
-            for st in inp['steps']:
+            try:
+                dm = self.build(inp)
+            except Exception as e:          # noqa: BLE001  (filling the columns / the prior sort, shuffle, selection,
+                #                             row deletion: none of them may fail on a well-formed table)
+                dm = None
+                pf.append('building / deriving the table under test (%s) raised %r' % (
+                    (inp.get('order') or {}).get('tag', 'fresh'), e))
+                obs.append({'raises': pyobs.exn_name(e)})
+                nontriv = True
+            for st in (inp['steps'] if dm is not None else []):
                 try:
                     r = self.step(dm, st)
                 except Exception as e:      # noqa: BLE001  (the property allows ValueError only for bin_split, handled there)
@@ -377,11 +515,13 @@ class C10:
             tags.append('by:' + bycol[0]['kind'])
         if len(inp['steps']) > 1:
             tags.append('history')
+        if any(c['kind'] == 'KSeries' for c in inp['cols']):
+            tags.append('with-series')
         o = inp.get('order')
-        tags.append('order:' + ('fresh' if not o else o.get('tag', 'idx' if 'idx' in o else 'sorted')))
+        tags.append('order:' + ('fresh' if not o else o.get('tag', 'idx' if 'idx' in o else 'derived')))
         return {
             'input': inp, 'observed': obs, 'pyfail': '; '.join(pf) if pf else None,
-            'oracle': '(' + ' && '.join(os_) + ')', 'model': '(' + ' && '.join(ms) + ')',
+            'oracle': '(' + (' && '.join(os_) or 'true') + ')', 'model': '(' + (' && '.join(ms) or 'true') + ')',
             'nontrivial': nontriv, 'sig': json.dumps(inp, sort_keys=True), 'tags': tags,
         }
 
@@ -423,6 +563,18 @@ class C10:
             for w in reps[::3] + extra:
                 cases.append(self.rerun({'lt': [pyobs.enc(v), pyobs.enc(w)]}))
                 cases.append(self.rerun({'lt': [pyobs.enc(w), pyobs.enc(v)]}))
+        # (a') text whose code point order differs from its order under Unicode normalisation / UTF-16 / collation:
+        #      combining sequences with their precomposed twins and strings lying between the two, compatibility
+        #      characters, Hangul jamo vs syllables, astral characters next to U+FFxx; against each other and against
+        #      every string (and one value of each other class) of the representative set, both ways
+        exo = exotic_strings()
+        others = [x for x in reps if isinstance(x, str)] + [0, 1.5, INF, -INF, NAN, None]
+        for v in exo:
+            for w in exo:
+                cases.append(self.rerun({'lt': [pyobs.enc(v), pyobs.enc(w)]}))
+            for w in others:
+                cases.append(self.rerun({'lt': [pyobs.enc(v), pyobs.enc(w)]}))
+                cases.append(self.rerun({'lt': [pyobs.enc(w), pyobs.enc(v)]}))
         if thorough:
             for _ in range(1500):
                 v, w = rand_value(rng, 'KMixed'), rand_value(rng, 'KMixed')
@@ -434,7 +586,7 @@ class C10:
             for n in lengths:
                 for rep in range(nrep):
                     inp = self.scenario(rng, kind, n, order_kind=(rep + n) % 5)
-                    m = len(self.build(inp))            # rows after the prior order (a subset may be shorter)
+                    m = self.built_length(inp)            # rows after the prior order (a subset may be shorter)
                     other = 'o'
                     for st in ({'op': 'sort_dm', 'by': 'a'}, {'op': 'sort_col', 'obj': 'a'},
                                {'op': 'sort_col', 'obj': other, 'by': 'a'}, {'op': 'sort_col', 'obj': 'a', 'by': 't'},
@@ -467,7 +619,7 @@ class C10:
             for _ in range(60 if thorough else 16):
                 n = rng.randint(3, 9)
                 inp = self.scenario(rng, kind, n, order_kind=rng.choice([0, 2, 3, 4]))
-                m = len(self.build(inp))
+                m = self.built_length(inp)
                 if m < 3:
                     continue
                 judged = lambda: rng.choice([{'op': 'sort_dm', 'by': rng.choice(['a', 'o'])}, {'op': 'sort_col', 'obj': 'o', 'by': 'a'},
@@ -487,7 +639,7 @@ class C10:
             for _ in range(40 if thorough else 12):
                 n = rng.randint(2, 9)
                 inp = self.scenario(rng, kind, n, order_kind=rng.choice([0, 2]))
-                m = len(self.build(inp))
+                m = self.built_length(inp)
                 if m < 2:
                     continue
                 steps = []
@@ -503,7 +655,136 @@ class C10:
                                          {'op': 'sort_col', 'obj': 'a'},
                                          {'op': 'bin_split', 'col': 'a', 'bins': rng.randint(1, m)}]))
                 cases.append(self.rerun(dict(inp, steps=steps, tags=['history'])))
+        # (e) a table DERIVED from another one (sorted / shuffled / selected by a comparison / rows deleted in place /
+        #     index list; a fresh one as control) is shrunk and / or grown IN PLACE, new rows keep the default cells or
+        #     get written, then it is sorted / bin-split (its columns may share one row-id Index object after the
+        #     derivation: every column must still end up with its own, duplicate-free ids for the new rows)
+        for kind in KINDS:
+            for _ in range(45 if thorough else 14):
+                n = rng.randint(2, 8)
+                inp = self.scenario(rng, kind, n, order_kind=0)
+                inp['order'] = self.derive(rng, inp, n)
+                if rng.random() < 0.3:
+                    self.add_series(rng, inp)
+                m = self.built_length(inp)
+                steps = []
+                if rng.random() < 0.3:
+                    steps.append(self.judged(rng, inp, m))
+                for _k in range(rng.randint(1, 2)):
+                    if rng.random() < 0.4:
+                        d = -rng.randint(1, 2)
+                        steps.append({'op': 'resize', 'delta': d})
+                        m = max(0, m + d)
+                    d = rng.randint(1, 3)
+                    steps.append({'op': 'resize', 'delta': d})
+                    m += d
+                    for _w in range(rng.randint(0, 3)):
+                        c = rng.choice(['a', 'o', 'a'])
+                        steps.append({'op': 'write', 'wrap': True, 'col': c, 'idx': -rng.randint(1, 3),
+                                      'value': pyobs.enc(rand_value(rng, kind if c == 'a' else 'KMixed'))})
+                    steps.append(self.judged(rng, inp, m))
+                    if rng.random() < 0.3:
+                        steps.append(self.judged(rng, inp, m))
+                cases.append(self.rerun(dict(inp, steps=steps, tags=['history', 'resized'])))
+        # (f) tables that carry SeriesColumns (one or two, depths 0..4, also with the depth changed after filling)
+        #     next to the plain columns: sort(dm, by), sort(series, by=col) (also detached), bin_split; every result
+        #     row must hold the series cell of the same source row (judged by the oracle on the pseudo-columns)
+        for kind in KINDS:
+            for n in [0, 1, 2, 3, 4, 5, 7, 9] + ([12, 20] if thorough else []):
+                for rep in range(4 if thorough else 2):
+                    inp = self.scenario(rng, kind, n, order_kind=(rep + n) % 5)
+                    if rep % 2 and n:
+                        inp['order'] = self.derive(rng, inp, n)
+                    snames = self.add_series(rng, inp)
+                    m = self.built_length(inp)
+                    sts = [{'op': 'sort_dm', 'by': 'a'}, {'op': 'sort_col', 'obj': snames[0], 'by': 'a'},
+                           {'op': 'sort_dm', 'by': rng.choice(['o', 't'])},
+                           {'op': 'sort_col', 'obj': snames[-1], 'by': rng.choice(['o', 't'])}]
+                    if m >= 2:
+                        sts.append({'op': 'sort_col', 'obj': snames[0], 'by': 'a', 'key': self.detach_key(rng, m)})
+                    for b in sorted({1, rng.randint(1, m + 1), m, m + 1} - {0}):
+                        sts.append({'op': 'bin_split', 'col': 'a', 'bins': b})
+                    for st in sts:
+                        cases.append(self.rerun(dict(inp, steps=[st], tags=['series'])))
+            for _ in range(24 if thorough else 8):
+                # sort / use / sort with a series column on board
+                n = rng.randint(3, 8)
+                inp = self.scenario(rng, kind, n, order_kind=rng.choice([0, 2, 3, 4]))
+                snames = self.add_series(rng, inp)
+                m = self.built_length(inp)
+                if m < 2:
+                    continue
+                steps = [self.judged(rng, inp, m)]
+                for _k in range(rng.randint(1, 2)):
+                    for _u in range(rng.randint(1, 2)):
+                        steps.append({'op': 'use', 'how': rng.choice(['shuffle_col', 'shuffle_dm', 'sample', 'select',
+                                                                        'sort_by_other']),
+                                      'col': rng.choice(['a', 'o', 't']), 'seed': rng.randrange(1000)})
+                    if rng.random() < 0.5:
+                        steps.append({'op': 'write', 'wrap': True, 'col': rng.choice(snames), 'idx': rng.randrange(m),
+                                      'value': pyobs.enc(rng.choice([0.5, -1.0, NAN, 3.25]))})
+                    steps.append(self.judged(rng, inp, m))
+                cases.append(self.rerun(dict(inp, steps=steps, tags=['history', 'series'])))
         return cases
+
+    def judged(self, rng, inp, m):
+        """one judged call on the live table of (current) length m"""
+        snames = [c['name'] for c in inp['cols'] if c['kind'] == 'KSeries']
+        opts = [{'op': 'sort_dm', 'by': rng.choice(['a', 'o', 't'])}, {'op': 'sort_dm', 'by': 'a'},
+                {'op': 'sort_col', 'obj': 'a'}, {'op': 'sort_col', 'obj': 'o', 'by': 'a'},
+                {'op': 'sort_col', 'obj': 'o'}, {'op': 'sort_col', 'obj': 'a', 'by': rng.choice(['o', 't'])},
+                {'op': 'bin_split', 'col': rng.choice(['a', 'a', 'o', 't']), 'bins': rng.randint(1, max(1, min(m, 4)))}]
+        if m >= 2:
+            opts.append({'op': 'sort_col', 'obj': 'a', 'key': self.detach_key(rng, m)})
+            opts.append({'op': 'sort_col', 'obj': 'o', 'by': 'a', 'key': self.detach_key(rng, m)})
+        for sname in snames:
+            opts.append({'op': 'sort_col', 'obj': sname, 'by': rng.choice(['a', 'o', 't'])})
+            opts.append({'op': 'sort_dm', 'by': rng.choice(['a', 'o', 't'])})
+        return rng.choice(opts)
+
+    def derive(self, rng, inp, n):
+        """how the table under test is derived from the freshly built one (None: not at all)"""
+        c = rng.random()
+        if c < 0.22:
+            return {'sort': rng.choice(['a', 'o', 't']), 'tag': 'sorted-before'}
+        if c < 0.44:
+            return {'shuffle': rng.randrange(1000), 'tag': 'shuffled-by-ops'}
+        if c < 0.64:
+            ovals = [v for col in inp['cols'] if col['name'] == 'o' for v in col['values']]
+            return {'select': {'col': 'o', 'ne': rng.choice(ovals + [pyobs.enc('x'), pyobs.enc('no such cell')])},
+                    'tag': 'selected'}
+        if c < 0.82:
+            return {'delrows': sorted({rng.randrange(n) for _ in range(rng.randint(1, 2))}), 'tag': 'rows-deleted'}
+        if c < 0.92:
+            p = [i for i in range(n) if rng.random() < 0.8] or [0]
+            rng.shuffle(p)
+            return {'idx': p, 'tag': 'subset'}
+        return None
+
+    def add_series(self, rng, inp):
+        """adds one or two SeriesColumns to a scenario; -> their names"""
+        n = len(inp['cols'][0]['values'])
+        names = ['s'] if rng.random() < 0.6 else ['s', 'u']
+        for name in names:
+            depth = rng.choice([0, 1, 2, 2, 3, 3, 4])
+            rows = []
+            for i in range(n):
+                rows.append([pyobs.enc(float(rng.choice([i, i + 0.25 * j, i * 10 + j, NAN, INF, -INF, 0.0, -0.0, j, 1.5,
+                                                         rng.uniform(-3, 3)]))) for j in range(depth)])
+            col = {'name': name, 'kind': 'KSeries', 'depth': depth, 'values': rows}
+            if rng.random() < 0.3:
+                col['defaultnan'] = False
+            if rng.random() < 0.3:
+                col['redepth'] = rng.choice([d for d in range(0, 6) if d != depth])
+            inp['cols'].append(col)
+        return names
+
+    def built_length(self, inp):
+        """rows of the table under test (after the prior order / derivation; a subset may be shorter)"""
+        try:
+            return len(self.build(inp))
+        except Exception:                   # noqa: BLE001  (reported by rerun as a case of its own)
+            return len(inp['cols'][0]['values'])
 
     def detach_key(self, rng, m):
         c = rng.random()
@@ -555,15 +836,23 @@ class C10:
         if inp.get('order'):
             yield dict(inp, order=None)
         used = {s.get(k) for s in steps for k in ('by', 'obj', 'col')} | \
-               ({inp['order'].get('sort')} if inp.get('order') else set())
+               ({inp['order'].get('sort'), (inp['order'].get('select') or {}).get('col')} if inp.get('order') else set())
         for c in inp['cols']:
             if c['name'] not in used and len(inp['cols']) > 1:
                 yield dict(inp, cols=[x for x in inp['cols'] if x is not c])
         n = len(inp['cols'][0]['values'])
-        if not inp.get('order') or 'sort' in inp['order']:
+        if not inp.get('order') or 'sort' in inp['order'] or 'shuffle' in inp['order'] or 'select' in inp['order']:
             for k in range(n):
                 yield dict(inp, cols=[dict(c, values=c['values'][:k] + c['values'][k + 1:]) for c in inp['cols']])
         for c in inp['cols']:
+            if c['kind'] == 'KSeries':
+                if c['depth'] > 1 and 'redepth' not in c:
+                    yield dict(inp, cols=[dict(x, depth=1, values=[r[:1] for r in x['values']]) if x is c else x
+                                          for x in inp['cols']])
+                if 'redepth' in c:
+                    yield dict(inp, cols=[{k_: v_ for k_, v_ in x.items() if k_ != 'redepth'} if x is c else x
+                                          for x in inp['cols']])
+                continue
             for k, v in enumerate(c['values']):
                 for simple in (pyobs.enc(0), pyobs.enc(1)):
                     if v != simple:
@@ -604,6 +893,14 @@ def representative_values():
             None]
 
 
+def exotic_strings():
+    """text for which 'by code point' differs from what a normalising / collating / UTF-16 comparison gives"""
+    return ['e\u0301clair', '\u00e9clair', 'eclair', 'f', 'zebra', 'e\u0301', 'ez', 'e\u0300', 'e\u0301\u0323', 'e\u0323\u0301',
+            '\u1e1b', 'A\u030a', '\u00c5', '\u212b', 'B', '\u1100\u1161', '\uac00', '\u1101', 'n\u0303o', '\u00f1o', 'nz',
+            '\ufb01n', 'fin', '\u0301', '\u00df', 'ss', '\uff21', '\ud7ff', '\ue000', '\uffee', '\uffff', '\U00010000',
+            '\U0001f600', '\U0001f600\ufe0f', '\u0131', 'I\u0307', '\u03a9', '\u2126', '\u00a0', ' ']
+
+
 def rand_value(rng, kind):
     if kind == 'KInt':
         return rng.choice([rng.randint(-3, 3), rng.randint(-100, 100), 2 ** 53 + rng.randint(0, 2), -(2 ** 53) - 1,
@@ -624,6 +921,10 @@ def rand_value(rng, kind):
         # text that float() / int() can or cannot parse: what is stored decides (a number if the column converted it,
         # text otherwise), and text sorts after every number
         return rng.choice(['1_5', '2021_03', ' 7 ', '1e3', '+3', '0x10', '1_000.5', '1__5', '_1', '1_', '3.', '.5', '1,5'])
+    if c < 0.72:
+        # NFD / NFC spellings of one label with text between them in code point order; astral next to U+FFxx
+        return rng.choice([rng.choice(['e\u0301clair', '\u00e9clair', 'f', 'zebra', 'e\u0301', 'ez', '\u00e9', 'eclair']),
+                           rng.choice(exotic_strings())])
     if c < 0.8:
         return rng.choice(['', 'a', 'b', 'B', 'ab', 'é', 'z', '日本', 'A', 'aa', '_', 'x y', '~'])
     if c < 0.9:
